@@ -43,6 +43,10 @@ def gen(rng, tier):
                         hi = 5
             if rng.random() < 0.1:
                 lo, hi = 18 * 200, 18 * 201 + 17          # excludes every occurrence
+            if rng.random() < 0.08:
+                # aligned bounds of extreme magnitude (beyond every position, beyond the 46-bit word index)
+                big = 18 * 2 ** rng.choice([14, 20, 40, 45, 46, 47, 58])
+                lo, hi = rng.choice([(big, None), (big, big + 17), (None, big + 17), (0, big + 17), (big - 18, None)])
             if rng.random() < 0.5:
                 t = rng.choice(voc + [vocab + 5])
                 unaligned = (lo is not None and lo % 18 != 0) or (hi is not None and hi % 18 != 17)
